@@ -14,7 +14,7 @@ def plan(prop, tier):
     q = tier == 'quick'
     n = 16 if q else 64
     per = 190 if q else 5000
-    return ['asan', 'plain'], [('cmp', SEED * 1000 + i, per) for i in range(n)]
+    return ['asan', 'plain', 'efence'], [('cmp', SEED * 1000 + i, per) for i in range(n)]
 
 
 class NoClaim(Exception):
